@@ -43,10 +43,16 @@ func (g *gen) randBytes(n int) []byte {
 	return b
 }
 
-// a 4..64 KiB image that is not a UEFI image
+// a 4..64 KiB image without firmware volumes: random bytes (parses as a BIOS
+// region without files) or, sometimes, zeros only (the UEFI parser rejects it)
 func (g *gen) plainImage(f *hflow) {
 	size := []int{4096, 8192, 16384, 32768, 65536, 4096 + 512, 12288}[g.rn(7)]
+	if g.p(12) {
+		f.img = f.addArt(biosimage.New(make([]byte, size)), uint64(size))
+		return
+	}
 	f.img = f.addArt(biosimage.New(g.randBytes(size)), uint64(size))
+	f.uefi = true
 }
 
 // 1..4 firmware volumes, each holding one file whose first section is PE32 / PIC
@@ -62,7 +68,7 @@ func (g *gen) uefiImage(f *hflow) {
 			}
 			img = append(img, gap...)
 		}
-		secType := []byte{0x10, 0x11, 0x12, 0x10, 0x12, 0x19, 0x13}[g.rn(7)]
+		secType := []byte{0x10, 0x11, 0x12, 0x10, 0x12, 0x19, 0x19}[g.rn(7)]
 		total := 0x6000 + 0x1000*g.rn(3)
 		base := len(img)
 		img = append(img, miniFV(total, secType)...)
@@ -447,7 +453,7 @@ func (g *gen) generic(o flowOpts) *hflow {
 		}
 	}
 	// which refs of the image are offsets?
-	if o.uefi {
+	if len(f.exec) > 0 {
 		for _, st := range f.steps {
 			for _, a := range st.acts {
 				for _, m := range a.meas {
@@ -635,6 +641,7 @@ func (g *gen) fixed() []*hflow {
 	mk := func(kind string, size int, build func(f *hflow)) {
 		f := &hflow{kind: kind, exact: true}
 		f.img = f.addArt(biosimage.New(g.randBytes(size)), uint64(size))
+		f.uefi = true
 		build(f)
 		out = append(out, f)
 	}
